@@ -17,7 +17,7 @@ from pyvc import sqlmodel as SQL
 from pyvc.interp import NamedTupleVal
 from pyvc.values import Unsupported
 
-DEPENDS = ['helpers']
+DEPENDS = ['helpers', 'streams']
 FIELDS = ('hashkey', 'offset', 'length', 'compressed', 'size')
 
 
@@ -333,6 +333,7 @@ def missing_inv(vc, L):
 class MetaGenerator(CUnit):
     fn = 'container:Container._get_objects_stream_meta_generator'
     mode = 'meta'
+    sessions = (0, 1, 2)        # operation session before the call: none / open and clean / open with a stale pinned snapshot
     props = ('C02', 'C08', 'C16', 'C01', 'C10')
     allowed_exc = ()
     timeout_ms = 8000
@@ -361,7 +362,7 @@ class MetaGenerator(CUnit):
 
     def make(self, vc, I):
         w = mk_world(vc)
-        which = vc.choose(3, label='session_before_the_call')
+        which = self.sessions[vc.choose(len(self.sessions), label='session_before_the_call')] if len(self.sessions) > 1 else self.sessions[0]
         c = mk_container(vc, I, w, session='open' if which else 'none', hash_types=('sha256',))
         if which == 2:
             c.f['_operation_session'].view = SQL.Table.fresh('stale')     # pinned before other handles committed
@@ -448,5 +449,251 @@ def mg_hook(I, tag, payload):
         vc.check('select:second_lookup_reads_the_index_as_it_is_after_the_loose_files_were_missed', SBool.of(s.view is db.table))
 
 
+# ============================================================================= the same generator with streams
+class Untouchable:
+    """Value of a local that every loop body assigns before reading it: the invariants say nothing about it, and any use
+    (attribute, truth value, call) makes the unit undecided instead of letting an arbitrary choice through."""
+
+    def sym_getattr(self, I, name):
+        raise Unsupported(f'a local not described by the loop invariant is used (.{name})')
+
+    def sym_truth(self, vc):
+        raise Unsupported('a local not described by the loop invariant is used (truth value)')
+
+    def __repr__(self):
+        return '<local not described by the invariant>'
+
+
+UNTOUCHABLE = Untouchable()
+
+
+def with_streams(vc):
+    return bool(G(vc, '$args').with_streams)
+
+
+def fds_now(vc):
+    # descriptors of regular files (the SQLite connection of the operation session is the handle's, released by close())
+    return [f.num for f in vc.world.open_fds if f.what != 'sqlite']
+
+
+def closed_or_none(f):
+    return f is None or (isinstance(f, EM.FileObj) and f.closed is True)
+
+
+def closed_file(vc):
+    w = vc.world
+    f = EM.FileObj(w, 0, 'rb')
+    w.close_fd(f.fdrec)
+    f.closed = True
+    return f
+
+
+def between_files(inv):
+    """Loop heads between two files (pack loops, loose loop): the previous file is closed, nothing but the caller's
+    descriptors is open."""
+    def wrapped(vc, L):
+        yield from inv(vc, L)
+        if with_streams(vc):
+            yield 'file_of_the_previous_item_closed', SBool.of(closed_or_none(L.last_open_file))
+            yield 'only_the_callers_descriptors_open', SBool.of(fds_now(vc) == G(vc, '$fds0'))
+    return wrapped
+
+
+def inside_pack(inv):
+    """Head of the loop over the rows of one pack: exactly the pack file of this iteration is open for reading."""
+    def wrapped(vc, L):
+        yield from inv(vc, L)
+        if with_streams(vc):
+            f, c = L.last_open_file, L.self
+            ok = isinstance(f, EM.FileObj) and f.closed is False and f.mode == 'rb'
+            yield 'pack_file_open_for_reading', SBool.of(ok)
+            if ok:
+                fw = FS.snap(vc.world)
+                yield 'open_file_is_the_pack_being_reported', f.ino == fw.inode_at(pack_pid(c, SInt.of(L.pack_int_id)))
+                yield 'file_position_nonneg', f.kpos >= 0
+                yield 'exactly_one_file_open', SBool.of(fds_now(vc) == G(vc, '$fds0') + [f.fdrec.num])
+    return wrapped
+
+
+def havoc_between(base, lazy=True):
+    def h(vc, L):
+        base(vc, L)
+        if with_streams(vc):
+            L.last_open_file = None if vc.choose(2, label='previous_file_none_or_closed') == 0 else closed_file(vc)
+            if lazy:
+                L.lazy_loose_stream = UNTOUCHABLE
+                if L.has('obj_reader'):
+                    L.obj_reader = UNTOUCHABLE
+    return h
+
+
+def havoc_inside_pack(vc, L):
+    havoc_report_rows(vc, L)
+    if with_streams(vc):
+        f = L.last_open_file
+        f.kpos = SInt.fresh('kpos_left_by_the_consumer')
+        vc.assume(f.kpos >= 0)
+        L.lazy_loose_stream = UNTOUCHABLE
+        if L.has('obj_reader'):
+            L.obj_reader = UNTOUCHABLE
+
+
+class StreamGenerator(MetaGenerator):
+    """with_streams=True (get_object_stream[_and_meta], get_objects_stream_and_meta, get_object(s)_content): on top of the
+    metadata clauses, every yielded stream is, in the abstraction used by the stream contracts of streams.py (which prove
+    that read/seek/tell refine an in-memory file over `view.content`), a stream in its initial state whose content has the
+    reported key as digest and the reported size -- C01 read side and the composition step of C07; the lazily opened loose
+    copy handed to the decompresser is the copy of the SAME key; exactly one file is open at every yield, the file of the
+    previous item is closed before the next is opened, and nothing is left open when the generator finishes OR is
+    abandoned by its consumer (C18).
+
+    Consumer model between two items: it moves the position of the yielded stream arbitrarily, may have made the
+    decompresser switch to its loose copy (descriptor of the lazy stream open), may stop iterating (generator closed)."""
+    mode = 'streams'
+    props = ('C01', 'C07', 'C18')
+    tier = 'quick'              # about 4 minutes on 15 cores; proved in the every-change tier under C07 and C18 (memoised)
+    quick_props = ('C07', 'C18')
+    sessions = (2,)             # every-change variant: the most general session state (a pinned snapshot that is any
+                                # sub-index of the committed one, incl. the committed one itself); the lookups under the
+                                # other two states are covered by the @meta unit, all three by the thorough variant below
+    inline = ACCESSORS + ('utils:ZlibLikeBaseStreamDecompresser.__init__', 'utils:ZlibStreamDecompresser.decompressobj_class',
+                          'utils:ZlibStreamDecompresser.decompress_error', 'utils:LazyLooseStream.closed',
+                          'utils:LazyLooseStream.close_stream')
+    loops = {
+        0: Loop(0, lookup_chunks_inv(1, 'hashkeys_set'), havoc=havoc_lookup),
+        1: Loop(1, lookup_rows_inv(1, 'hashkeys_set'), havoc=havoc_lookup),
+        2: Loop(2, lookup_scan_inv(1, 'hashkeys_set'), havoc=havoc_lookup),
+        3: Loop(3, between_files(report_packs_inv(1)), havoc=havoc_between(havoc_report)),
+        4: Loop(4, inside_pack(report_rows_inv(1)), havoc=havoc_inside_pack),
+        5: Loop(5, between_files(loose_inv), havoc=havoc_between(havoc_loose, lazy=False)),
+        6: Loop(6, lookup_chunks_inv(2, 'loose_not_found'), havoc=havoc_lookup),
+        7: Loop(7, lookup_rows_inv(2, 'loose_not_found'), havoc=havoc_lookup),
+        8: Loop(8, lookup_scan_inv(2, 'loose_not_found'), havoc=havoc_lookup),
+        9: Loop(9, between_files(report_packs_inv(2)), havoc=havoc_between(havoc_report)),
+        10: Loop(10, inside_pack(report_rows_inv(2)), havoc=havoc_inside_pack),
+        11: Loop(11, between_files(missing_inv), havoc=havoc_report_rows),
+    }
+
+    def make(self, vc, I):
+        a = MetaGenerator.make(self, vc, I)
+        a.with_streams = True
+        return a
+
+    def pre(self, vc, a):
+        yield from MetaGenerator.pre(self, vc, a)
+        w, c = vc.world, a.self
+        Tc = SQL.db_of_world(w, vc).table
+        from .cpack import container_wf
+        for n, f in container_wf(vc, w, c, Tc):
+            if n not in ('loose_paths_are_files', 'sandbox_paths_are_files'):
+                yield n, f
+
+    def snapshot(self, vc, a):
+        o = MetaGenerator.snapshot(self, vc, a)
+        o.fds = fds_now(vc)
+        vc.ghost['$fds0'] = o.fds
+        return o
+
+    def drive_generator(self, vc, I, a, o, gen):
+        while True:
+            try:
+                item = next(gen.pygen)
+            except StopIteration:
+                break
+            for name, fml in self.on_yield(vc, a, o, item):
+                vc.check('yield:' + name, fml)
+            if self.consume(vc, I, a, item) == 'abandon':
+                vc.ghost['$abandoned'] = True
+                gen.pygen.close()
+                break
+        return None
+
+    def consume(self, vc, I, a, item):
+        key, stream, meta = item
+        dec = isinstance(stream, PyObj) and stream.cls.name == 'ZlibStreamDecompresser'
+        how = vc.choose(3 if dec else 2, label='consumer')
+        reader = stream.f['_compressed_stream'] if dec else stream
+        fh = reader.f['_fhandle'] if isinstance(reader, PyObj) else reader
+        if isinstance(fh, EM.FileObj):
+            fh.kpos = SInt.fresh('kpos_left_by_the_consumer')
+            vc.assume(fh.kpos >= 0)
+        if how == 1:
+            return 'abandon'
+        if how == 2:
+            # the decompresser switched to the re-loosened copy: the lazy stream now holds an open descriptor
+            lz = stream.f['_lazy_uncompressed_stream']
+            ino = SInt.fresh('inode_of_the_loosened_copy')
+            vc.assume(ino > 0)
+            lz.f['_stream'] = EM.FileObj(vc.world, ino, 'rb')
+        return 'next'
+
+    def on_yield(self, vc, a, o, item):
+        from . import streams as ST
+        key, stream, meta = item
+        yield from MetaGenerator.on_yield(self, vc, a, o, (key, meta))
+        c = a.self
+        k = SStr.of(key)
+        h = c.f['$hash']
+        fw = FS.snap(vc.world)
+        fds = fds_now(vc)
+        typ = meta.f['type'].name
+        if typ == 'PACKED':
+            T = G(vc, '$T2') if '$second_lookup' in vc.ghost else o.T1
+            dec = isinstance(stream, PyObj) and stream.cls.name == 'ZlibStreamDecompresser'
+            reader = stream.f['_compressed_stream'] if dec else stream
+            ok = isinstance(reader, PyObj) and reader.cls.name == 'PackedObjectReader' and isinstance(reader.f['_fhandle'], EM.FileObj)
+            yield 'packed_stream_is_a_bounded_reader_of_a_file', SBool.of(ok)
+            if not ok:
+                return
+            yield 'decompresser_exactly_for_compressed_rows', T.col('compressed', k) == SBool.of(dec)
+            v = ST.por_view(reader)
+            fh = v.fh
+            yield 'reader_is_over_the_open_pack_file_of_the_row', b_and(
+                SBool.of(fh.closed is False and fh.mode == 'rb'), fh.ino == fw.inode_at(pack_pid(c, T.col('pack_id', k))))
+            yield 'reader_covers_exactly_the_byte_range_of_the_row', b_and(
+                v.off == T.col('offset', k), v.len == T.col('length', k), v.pos == 0)
+            for n, f in ST.por_rep(reader):
+                yield 'reader:' + n, f
+            content = v.content
+            if dec:
+                for n, f in ST.zd_rep(stream):
+                    yield 'decompresser:' + n, f
+                zv = ST.zd_view(stream)
+                content = zv.content
+                yield 'decompresser_in_compressed_mode_at_start', b_and(SBool.of(zv.mode == 'c'), zv.pos == 0)
+                lz = stream.f['_lazy_uncompressed_stream']
+                lz_ok = isinstance(lz, PyObj) and lz.cls.name == 'LazyLooseStream' and lz.f['_container'] is c and lz.f['_stream'] is None
+                yield 'fallback_is_the_unopened_lazy_loose_copy', SBool.of(lz_ok)
+                if lz_ok:
+                    yield 'fallback_is_the_copy_of_the_same_key', SStr.of(lz.f['_hashkey']) == k
+            yield 'stream_content_has_the_reported_key_as_digest', EM.H(h, content) == k
+            yield 'stream_content_has_the_reported_size', content.length() == SInt.of(meta.f['size'])
+            yield 'exactly_one_file_open', SBool.of(fds == o.fds + [fh.fdrec.num])
+        elif typ == 'LOOSE':
+            ok = isinstance(stream, EM.FileObj)
+            yield 'loose_stream_is_a_file', SBool.of(ok)
+            if not ok:
+                return
+            yield 'loose_stream_is_the_open_loose_file_of_the_key_at_its_start', b_and(
+                SBool.of(stream.closed is False and stream.mode == 'rb'), stream.ino == fw.inode_at(loose_pid(c, k)), stream.kpos == 0)
+            yield 'stream_content_has_the_reported_key_as_digest', EM.H(h, stream.content()) == k
+            yield 'stream_content_has_the_reported_size', stream.content().length() == SInt.of(meta.f['size'])
+            yield 'exactly_one_file_open', SBool.of(fds == o.fds + [stream.fdrec.num])
+        else:
+            yield 'missing_item_has_no_stream', SBool.of(stream is None)
+            yield 'no_file_open', SBool.of(fds == o.fds)
+
+    def post(self, vc, a, o, ret):
+        yield 'no_descriptor_left_open', SBool.of(fds_now(vc) == o.fds)
+        if '$abandoned' not in vc.ghost:
+            yield from MetaGenerator.post(self, vc, a, o, ret)
+
+
+class StreamGeneratorAllSessions(StreamGenerator):
+    mode = 'streams_all_sessions'
+    tier = 'thorough'           # about 11 minutes on 15 cores
+    sessions = (0, 1, 2)
+
+
 from . import cwrite as CWL
-UNITS = CM_UNITS[:1] + HP.HELPER_SUMMARIES + [MetaGenerator()]
+UNITS = CM_UNITS[:1] + HP.HELPER_SUMMARIES + [MetaGenerator(), StreamGenerator(), StreamGeneratorAllSessions()]
